@@ -18,6 +18,8 @@ ANN = [('# hello world', True, 'hello world'), ('// slashes', True, 'slashes'), 
        ('#/etc/app conf', True, '/etc/app conf'), ('//#42 hash', True, '#42 hash'), ('# open /* only', True, 'open /* only'),
        ('/*\n  boxed\n*/', False, 'boxed'), ('/*\n * star line\n */', False, '* star line'), ('# cr\r', True, 'cr'), ('/*\ttabbed\t*/', False, 'tabbed'),
        ('# ' + 'a long annotation ' * 3, True, ('a long annotation ' * 3).strip()), ('/* ' + 'w' * 33 + ' */', False, 'w' * 33),
+       ('#\x0c form feed and vertical tab \x0b', True, 'form feed and vertical tab'), ('/*\x0b\x0c both ends \x0c*/', False, 'both ends'),
+       ('/* dos\r\n   lines\r\n   here */', False, 'dos\r\n   lines\r\n   here'), ('// tab end\t', True, 'tab end'),
        ('# ends a C comment */ early', True, 'ends a C comment */ early'), ('// a */', True, 'a */'), ('# */', True, '*/'),
        ('#', True, None), ('//', True, None), ('/**/', False, None), ('/* */', False, None), ('###', True, None)]
 RULE = ('grammar-derived accepted texts and token-mutated rejected texts x every token boundary (also inside lists, after =, between section name/title and {, '
